@@ -1,7 +1,7 @@
 import Driver.Proto
 import Neutrino.Spec.Lru
 open Neutrino.Lru
-namespace Driver.Lru
+namespace Driver.Drv.Lru
 
 def parseOp (ws : List String) : Option Op :=
   match ws with
@@ -96,4 +96,4 @@ def runCase : CaseFn := fun c => Id.run do
             diverged := true
   return out
 
-end Driver.Lru
+end Driver.Drv.Lru
